@@ -98,3 +98,42 @@ example : WFFrom none none 54460 serverHello []
 
 example : min 54460 (revisionOf [.s [67, 72], .n 23, .n 8, .n 54453, .s [85, 84, 67], .s [100], .n 1]) = 54453 := by
   decide
+
+/-! ### a hello that arrives before the handshake timeout is accepted (discrete-time model) -/
+
+theorem C13.waitHello_aux : ∀ (fuel now readTO hsTO arrival : Nat), 0 < readTO → arrival < hsTO → now < hsTO →
+    hsTO ≤ now + fuel * readTO → waitHello fuel now readTO hsTO arrival = true := by
+  intro fuel
+  induction fuel with
+  | zero =>
+    intro now readTO hsTO arrival hr ha hn hf
+    simp only [Nat.zero_mul, Nat.add_zero] at hf
+    omega
+  | succ f ih =>
+    intro now readTO hsTO arrival hr ha hn hf
+    simp only [waitHello]
+    by_cases h1 : arrival ≤ min (now + readTO) hsTO
+    · simp [h1]
+    · simp only [h1, ↓reduceIte]
+      by_cases h2 : hsTO ≤ min (now + readTO) hsTO
+      · exfalso
+        have : min (now + readTO) hsTO = hsTO := by omega
+        rw [this] at h1; omega
+      · simp only [h2, ↓reduceIte]
+        have hmin : min (now + readTO) hsTO = now + readTO := by omega
+        rw [hmin]
+        apply ih (now + readTO) readTO hsTO arrival hr ha (by omega)
+        rw [Nat.succ_mul] at hf; omega
+
+/-- **A hello that arrives at any time before the handshake timeout is accepted**, whatever the
+per-packet read timeout (> 0): the retry loop reads it (enough attempts: `hsTO` of them always suffice). -/
+theorem C13_hello_before_handshake_timeout (readTO hsTO arrival : Nat) (hr : 0 < readTO) (ha : arrival < hsTO) :
+    waitHello hsTO 0 readTO hsTO arrival = true := by
+  apply C13.waitHello_aux hsTO 0 readTO hsTO arrival hr ha (by omega)
+  have : hsTO * 1 ≤ hsTO * readTO := Nat.mul_le_mul_left hsTO hr
+  omega
+
+/-- the earlier design (one read bounded by the read timeout) rejects a hello that arrives after
+the read timeout although the handshake timeout is far away — finding F14, repaired -/
+theorem C13_single_read_refuted : waitHelloOnce 3 300 90 = false ∧ waitHello 300 0 3 300 90 = true := by
+  decide
